@@ -32,3 +32,29 @@ Theorem lexer_makes_progress :
     (List.length (chs l') < List.length (chs l))%nat.
 Proof. exact next_token_progress. Qed.
 Print Assumptions lexer_makes_progress.
+
+(* ---------- termination of the parser model ---------- *)
+From Pory Require Import Format FuelOk.
+(* for every source text and configuration the parser answers with a program or an error, never with exhausted fuel: the
+   fuel it starts with, 5 * (number of tokens) + 4, pays for every recursive call (every call either consumes a token or
+   descends one of at most five levels between two consumed tokens) *)
+Theorem parser_never_out_of_fuel :
+  forall hl hd hs autovars switches ee fc cli_font cli_maxlen (src : text),
+    parse_program autovars switches ee (parse_format fc cli_font cli_maxlen ee) (lex hl hd hs src) <> Fuel.
+Proof. exact FuelOk.parser_never_out_of_fuel. Qed.
+Print Assumptions parser_never_out_of_fuel.
+
+(* above that bound the answer does not depend on the fuel at all: the fuel is a proof device, not part of the behaviour *)
+Theorem parser_answer_fuel_independent :
+  forall hl hd hs autovars switches ee fc cli_font cli_maxlen (src : text) (fuel1 fuel2 : nat) (st : pstate),
+    (5 * List.length (lex hl hd hs src) + 4 <= fuel1)%nat -> (5 * List.length (lex hl hd hs src) + 4 <= fuel2)%nat ->
+    parse_tops autovars switches ee (parse_format fc cli_font cli_maxlen ee) fuel1 st (lex hl hd hs src) =
+    parse_tops autovars switches ee (parse_format fc cli_font cli_maxlen ee) fuel2 st (lex hl hd hs src).
+Proof. exact FuelOk.parser_answer_fuel_independent. Qed.
+Print Assumptions parser_answer_fuel_independent.
+
+Theorem format_operator_never_out_of_fuel :
+  forall fc cli_font cli_maxlen ee (ts : toks),
+    Consume.eof_ended ts -> parse_format fc cli_font cli_maxlen ee ts <> Fuel.
+Proof. exact FuelOk.parse_format_never_out_of_fuel. Qed.
+Print Assumptions format_operator_never_out_of_fuel.
